@@ -3,7 +3,7 @@
 From Coq Require Import List ZArith Bool Lia Permutation Sorted.
 From IpfsLog Require Import Model.System Model.CheckLog Proofs.OmapProofs Proofs.SortProofs Proofs.Inv Proofs.DiffProofs
      Proofs.JoinProofs Proofs.SysProofs Proofs.TravProofs Proofs.TimeProofs Proofs.ValuesProofs Proofs.BoundedProofs
-     Proofs.PInv Proofs.PJoin Proofs.PSys.
+     Proofs.PInv Proofs.PJoin Proofs.PSys Proofs.PValues Proofs.PTime.
 Import ListNotations.
 Open Scope Z_scope.
 
@@ -144,7 +144,34 @@ Proof.
     + destruct W as [W1 W2]. split; [exact W1|apply IH; exact W2].
 Qed.
 
+(* ... and its Values() is a complete, duplicate-free linearisation, sorted by the ordering and with
+   every entry after those of its predecessors that the log still holds (C03 for truncated logs) *)
+Theorem C16_truncated_logs_linearise ops r l :
+  pwf ops -> Z.of_nat (length ops) < two63 -> nth_error (s_logs (run ops)) r = Some l -> order_total l ->
+  exists v, values l = Some v /\
+    NoDup (okeys v) /\
+    (forall k e, In (k, e) v <-> In (k, e) (l_entries l)) /\
+    StronglySorted (asc l) (oslice v) /\
+    (forall l1 e l2, oslice v = l1 ++ e :: l2 ->
+       forall n p, In n (e_next e) -> In (n, p) (l_entries l) -> In p l1).
+Proof.
+  intros W Hlen L OT. destruct (psinv_run ops W) as [UO IL].
+  pose proof (ptimes_in_range ops r l W Hlen L) as TO.
+  destruct (pvalues_spec _ l UO (IL r l L) TO OT) as [v [V [A [B [C D]]]]].
+  exists v. repeat split; auto; try apply B.
+  exact (pvalues_causal _ l v UO (IL r l L) TO B D).
+Qed.
+
 From IpfsLog Require Import Model.ExampleHist Proofs.WfBool.
+Example C16_truncated_nonvacuous :
+  pwf ex_hist_trunc /\ wfb ex_hist_trunc = false /\
+  map (fun l => (CheckLog.nsort (okeys (l_entries l)), okeys (l_heads l), option_map okeys (values l)))
+      (firstn 2 (s_logs (run ex_hist_trunc))) =
+  [([101; 103; 201], [101; 201], Some [101; 103; 201]); ([103; 201], [201], Some [103; 201])]%N.
+Proof.
+  split; [apply pwfb_pwf; vm_compute; reflexivity|]. split; vm_compute; reflexivity.
+Qed.
+
 Example C16_nonvacuous :
   (* replica 0 (two entries) merges replica 2 (three heads) with bound 3: keeps the 3 newest of the 4 *)
   wf (firstn 9 ex_hist) /\
@@ -161,4 +188,6 @@ Print Assumptions C16_bounded_join_keeps_newest.
 Print Assumptions C16_bounded_join_forgets_dropped_entries.
 Print Assumptions C16_every_log_of_every_history_is_a_log.
 Print Assumptions C16_any_merge_any_bound_any_history.
+Print Assumptions C16_truncated_logs_linearise.
+Print Assumptions C16_truncated_nonvacuous.
 Print Assumptions C16_nonvacuous.
